@@ -114,4 +114,60 @@ theorem tounicode_nbsp_cex :
     inDomain nbspSecs = false ∧ (parseToUnicode (render nbspSecs)).toOption ≠ some (specMap nbspSecs) := by
   decide
 
+/-! ## Widths: W / DW -/
+
+/-- For any interleaving of the two `W` syntaxes (`c [w1 w2 …]` and `c1 c2 w`, integer cids, integer or
+real widths, cid 0 included), `get_widths` builds exactly the specified dictionary. -/
+theorem widths_map_spec (es : List WEntry) :
+    getWidths (renderW es) = toWMap (specWidthPairs es).reverse := by
+  unfold getWidths
+  rw [widths_fold es []]
+  simp
+
+/-- … and the width used for a cid is the latest `W` entry covering it, else `DW`, else 1000
+(the default is the constant regenerated from pdffont.py). -/
+theorem widths_spec (es : List WEntry) (dw : Option Rat) (cid : Nat) :
+    glyphWidth (getWidths (renderW es)) dw cid = specWidth es dw cid := by
+  unfold glyphWidth specWidth
+  rw [widths_map_spec, lookup_toWMap]
+  cases (specWidthPairs es).reverse.lookup (cid : Int) with
+  | none => simp [Gen.CIDFont.DW_DEFAULT]
+  | some w => simp
+
+/-- non-vacuity: `[1 [500 600] 10 12 700 0 [5] 1 1 250.5]`, cid 1 is redefined by the last entry. -/
+def exampleW : List WEntry :=
+  [.list 1 [(500, true), (600, true)], .range 10 12 (700, true), .list 0 [(5, true)], .range 1 1 (501 / 2, false)]
+
+example : (List.range 14).map (specWidth exampleW none) =
+    [5, 501 / 2, 600, 1000, 1000, 1000, 1000, 1000, 1000, 1000, 700, 700, 700, 1000] := by decide +kernel
+
+/-! ## Advances (pen movement) -/
+
+/-- Vertical writing: after showing the cids `cs` at pen `(x, y)` the pen is at
+`(x, y + Σ w1y(c)/1000 · fs)` (`w1y` from W2/DW2, negative = downwards); x does not move. -/
+theorem vertical_advance (fs : Rat) (w : Nat → Rat) (cs : List Nat) (x y : Rat) :
+    (showCids true fs w cs (x, y)).2 = (x, y + advSum fs w cs) := by
+  simpa using showCids_snd true fs w cs x y
+
+/-- Horizontal writing: the pen moves by `Σ w(c)/1000 · fs` in x. -/
+theorem horizontal_advance (fs : Rat) (w : Nat → Rat) (cs : List Nat) (x y : Rat) :
+    (showCids false fs w cs (x, y)).2 = (x + advSum fs w cs, y) := by
+  simpa using showCids_snd false fs w cs x y
+
+/-- Every glyph is placed at the pen position reached after the glyphs before it, with advance
+`w(c)/1000 · fs`: the glyphs of `a ++ c :: b` are those of `a`, then `c` at the pen after `a`. -/
+theorem glyph_placement (v : Bool) (fs : Rat) (w : Nat → Rat) (a b : List Nat) (c : Nat) (p : Rat × Rat) :
+    (showCids v fs w (a ++ c :: b) p).1 =
+      (showCids v fs w a p).1 ++
+        ⟨c, (showCids v fs w a p).2.1, (showCids v fs w a p).2.2, w c * (1 / 1000) * fs⟩ ::
+          (showCids v fs w b (showCids v fs w [c] (showCids v fs w a p).2).2).1 := by
+  rw [showCids_append]
+  simp only
+  congr 1
+
+/-- The vertical width function of the model is the specified one for the default case: no `W2` entry
+means `DW2[1]`, and without `DW2` the regenerated default −1000. -/
+theorem vertical_default (cid : Nat) : glyphWidthV [] none cid = -1000 ∧ glyphWidthV [] (some (800, -900)) cid = -900 := by
+  constructor <;> simp [glyphWidthV, Gen.CIDFont.DW2_DEFAULT]
+
 end PdfVerif.Props.C07
